@@ -24,8 +24,10 @@ def oracle(tr):
     monitors = {}       # cid -> True when its filter is match-all (empty rule list)
     selective = {}      # cid -> [(key, unique name)] for monitors whose filter only names unique names
     names = {}
+    tk = Tracker()      # who owns which name (a filter destination=':1.N' is about the addressee, under whatever name it was addressed)
     for i, (per, closed) in enumerate(tr.steps):
         op = tr.ops[i]
+        tk.before(i, tr)
         sent = tr.sent(i) if op[0] == "send" else None
         actor = op[1] if op[0] == "send" else None
         if sent and hexname(fld(sent, "member")) == "Hello" and actor not in names:
@@ -69,7 +71,9 @@ def oracle(tr):
                 if m in closed or m not in monitors or (op[0] == "close" and op[1] == m):
                     continue
                 d = hexname(fld(sent, "dest"))
-                hit = any((k == "destination" and d == v) or (k == "sender" and names[actor] == v) for k, v in rules)
+                own = tk.primary(d) if d not in (None, BUS) and not d.startswith(":") else None
+                owner_name = tk.names.get(own) if own not in (None, "?") else None
+                hit = any((k == "destination" and (d == v or owner_name == v)) or (k == "sender" and names[actor] == v) for k, v in rules)
                 if hit:
                     k = len([l for l in per.get(m, []) if fld(l, "ser") == fld(sent, "ser") and hexname(fld(l, "sender")) == names[actor] and fld(l, "t") == fld(sent, "t")])
                     if k != 1:
@@ -91,6 +95,7 @@ def oracle(tr):
             monitors.pop(c, None); names.pop(c, None); selective.pop(c, None)
         if op[0] == "close":
             monitors.pop(op[1], None); names.pop(op[1], None); selective.pop(op[1], None)
+        tk.after(i, tr)
     return bad
 
 
@@ -158,6 +163,7 @@ def run(ctx):
     buscheck.run_histories(ctx, n // 2, 70, oracle, gen_kw={"weights": dict(W, query=8, request=14), "max_conns": 5}, policy=deny,
                            findings=findings, seed_salt=42, label="monitors-with-denials")
     buscheck.run_histories(ctx, 0, 0, oracle, findings=findings, seed_salt=43, label="vanished-peer-filters", scripts=vanished_peer_scripts())
+    buscheck.run_histories(ctx, 0, 0, oracle, findings=findings, seed_salt=44, label="filters-by-owner", scripts=owner_filter_scripts())
     # monitors together with service activation: model (activation layer) against the daemon, step by step
     from .. import actcheck, actdiff, actgen
     actcheck.run_histories(ctx, 0, 0, actdiff.Svc(actgen.DEFAULT_FILES), scripts=activation_scripts(), label="monitors-and-activation",
@@ -183,6 +189,26 @@ def run(ctx):
                     {"kind": "bus-history", "label": "interference", "seed": r["seed"], "policy": busdiff.SESSION.rules, "limits": None,
                      "extra": "", "ops": r["ops"], "diffs": r["diffs"]}, True)
     ctx.coverage.setdefault("histories", {})["interference"] = {"histories": len(good), "with_monitors": len(withm)}
+
+
+def owner_filter_scripts():
+    """a monitor's filter destination=':1.N' is about who the message is for: it matches what is sent to any name :1.N owns at the time"""
+    from ..bus import method_call, signal_msg, BUS_PATH
+    hello = lambda: method_call(1, BUS, BUS_PATH, BUS, "Hello").marshal()
+    def become(rules):
+        return method_call(2, BUS, BUS_PATH, "org.freedesktop.DBus.Monitoring", "BecomeMonitor", "asu", [rules, 0]).marshal()
+    req = lambda s, n: method_call(s, BUS, BUS_PATH, BUS, "RequestName", "su", [n, 0]).marshal()
+    base = [("connect", 0, 0, False), ("send", 0, hello())] + [x for c in (1, 2, 3) for x in (("connect", c, 0, False), ("send", c, hello()))]
+    out = []
+    for rules in ([b"destination=':1.2'"], [b"destination=':1.2'", b"sender=':1.3'"]):
+        out.append(base + [("send", 2, req(2, b"com.example.A")), ("send", 2, req(3, b"com.example.B")), ("send", 1, become(rules)),
+                           ("send", 3, method_call(5, ":1.2", "/a", "a.b", "ViaUnique", "s", [b"u"]).marshal()),
+                           ("send", 3, method_call(6, "com.example.A", "/a", "a.b", "ViaWellKnown", "s", [b"w"]).marshal()),
+                           ("send", 0, signal_msg(7, "/a", "a.b", "ViaOther", "s", [b"o"], dest="com.example.B").marshal()),
+                           ("send", 0, method_call(8, "com.example.Nobody", "/a", "a.b", "ToNobody").marshal()),
+                           ("send", 2, method_call(9, BUS, BUS_PATH, BUS, "ReleaseName", "s", [b"com.example.A"]).marshal()),
+                           ("send", 3, method_call(10, "com.example.A", "/a", "a.b", "AfterRelease").marshal())])
+    return out
 
 
 def vanished_peer_scripts():
